@@ -70,10 +70,11 @@ __CPROVER_assigns()
 __CPROVER_ensures(__CPROVER_return_value == (RB_LEN(c) == c->datasize))
 ;
 
-/* clear: the queue is empty afterwards; capacity, policy and cells unchanged */
+/* clear: the queue is empty afterwards; capacity, policy and cells unchanged
+ * (the frame admits an implementation that also resets the write slot) */
 void RB_F(_clear)(RB_N *c)
 __CPROVER_requires(RB_MEM_OK(c))
-__CPROVER_assigns(c->tail)
+__CPROVER_assigns(c->head, c->tail)
 __CPROVER_ensures(RB_SHAPE_SAME(c) && RB_POLICY_SAME(c) && RB_WF(c))
 __CPROVER_ensures(RB_LEN(c) == 0)
 __CPROVER_ensures(RB_CELL_SAME(c, g_j))
